@@ -53,6 +53,7 @@ import (
 	"path/filepath"
 	"regexp"
 	"sort"
+	"strconv"
 	"strings"
 	"sync"
 	"sync/atomic"
@@ -529,12 +530,21 @@ func (w *world) run(op opID, pats []string) (res opResult) {
 		}
 	case opRemove:
 		res.err = w.fs.RemoveWithContextAndExclusionPatterns(ctx, root, pats...)
-		res.set = w.snapshot(root)
+		res.set = present(w.snapshot(root))
 	case opCleanDir:
 		res.err = w.fs.CleanDirWithContextAndExclusionPatterns(ctx, root, pats...)
-		res.set = w.snapshot(root)
+		res.set = present(w.snapshot(root))
 	}
 	return
+}
+
+// present turns a snapshot (path -> is a directory) into a set of existing paths.
+func present(snap map[string]bool) map[string]bool {
+	out := make(map[string]bool, len(snap))
+	for p := range snap {
+		out[p] = true
+	}
+	return out
 }
 
 func errKind(err error) string {
@@ -1041,10 +1051,23 @@ func TestC08(t *testing.T) {
 		{name: "valid/small-names", mode: "valid", trees: small, lists: validLists, psets: psets},
 		{name: "invalid", mode: "invalid", trees: invTrees, lists: invalidLists(thorough)},
 	}
+	exhaustive := true
+	if n, _ := strconv.Atoi(os.Getenv("VERIF_C08_MAXTREES")); n > 0 { // development aid (profiling): never set by a registered command
+		exhaustive = false
+		for i := range groups {
+			if len(groups[i].trees) > n {
+				groups[i].trees = groups[i].trees[len(groups[i].trees)-n:]
+			}
+		}
+	}
 	var jobs []job
 	const chunk = 8
 	for gi, g := range groups {
 		for b := range backends {
+			if only := os.Getenv("VERIF_C08_BACKEND"); only != "" && only != backends[b] { // development aid (profiling)
+				exhaustive = false
+				continue
+			}
 			for lo := 0; lo < len(g.trees); lo += chunk {
 				hi := lo + chunk
 				if hi > len(g.trees) {
@@ -1150,7 +1173,7 @@ func TestC08(t *testing.T) {
 	rep.Coverage["evaluations"] = tot.evaluations
 	rep.Coverage["distinct_nontrivial"] = tot.nontrivial
 	rep.Coverage["rule"] = "a case is one (backend, tree, pattern list, operation), each enumerated exactly once; it is non-trivial when, with valid patterns, some entry in the operation's domain has a path component that contains a match of some pattern (the filter had to exclude it, or it lies in the unspecified middle), and, with an invalid pattern list, always (the case reaches the validation of the patterns)"
-	rep.Coverage["exhaustive"] = true
+	rep.Coverage["exhaustive"] = exhaustive
 	rep.Coverage["bound"] = bound
 	rep.Coverage["names"] = allNames
 	rep.Coverage["patterns_valid"] = validPatterns
